@@ -10,6 +10,7 @@ CONSTANTS
   One = 2
   Names <- DirNames
   CondIdx <- DirConds
+  ElifIdx <- DirConds
   DefIdx <- DirDefs
   TextIdx <- DirTexts
   MaxLines = 6
